@@ -325,6 +325,12 @@ class SimThreading(object):
                 s.yield_point("thr.start.pre")
                 if self._task is not None:
                     raise RuntimeError("threads can only be started once")
+                s.starts = getattr(s, "starts", 0) + 1
+                if getattr(s, "start_fault", None) and s.starts == s.start_fault:
+                    # fault: the system cannot start another thread just now
+                    s.probe("thread_start_failed")
+                    s.fault_fired = True
+                    raise RuntimeError("can't start new thread")
                 self._task = s.spawn(self.run)
                 self.name = self.name or self._task.name
                 s.yield_point("thr.start.post")
